@@ -1,6 +1,8 @@
 """C17 — finished simulations leave no workers behind."""
 import json
+import os
 import random
+import re
 
 import common as C
 import simlib
@@ -23,6 +25,49 @@ def two_outputs(rsize):
     prog = ["i2rw r0 i0", "nop", "nop", "r2owa r0 o0", "nop", "nop", "r2owa r0 o1", "nop", "nop", "j 0"]
     proc = {"arch": {"R": 1, "N": 1, "M": 2, "L": 0, "O": 4, "ops": ["i2rw", "j", "nop", "r2owa"], "mode": "ha", "rsize": rsize}, "prog": prog}
     return {"rsize": rsize, "procs": [proc], "inputs": 1, "outputs": 2, "bonds": [["p0i0", "i0"], ["o0", "p0o0"], ["o1", "p0o1"]]}
+
+
+def tuning_tool_part(res):
+    """cmd/simfinetune: its fitness function starts -workers goroutines per evaluation and must stop them all, for every value of the flag.
+    The function lives in package main, so it is reached through the hook test cmd/simfinetune/verif_hook_test.go (build tag verif), whose
+    binary is started without -test flags (the tool parses its flags in init)."""
+    import tempfile
+    import shutil
+    import subprocess
+    viol = []
+    work = tempfile.mkdtemp(prefix="c17sft")
+    try:
+        env = dict(os.environ, GOFLAGS="-mod=mod", GOPROXY="off", GOSUMDB="off", GOTOOLCHAIN="local")
+        for args in (["go", "test", "-tags", "verif", "-c", "-o", os.path.join(work, "sft.test"), "./cmd/simfinetune"],
+                     ["go", "build", "-o", os.path.join(work, "basm"), "./cmd/basm"]):
+            p = subprocess.run(args, cwd=C.REPO, env=env, capture_output=True, text=True, timeout=1800)
+            if p.returncode != 0:
+                raise C.Broken("cannot build %s: %s" % (args[-1], (p.stdout + p.stderr)[-400:]))
+        p = subprocess.run([os.path.join(work, "basm"), "-disable-dynamical-matching", "-o", "bm.json", os.path.join(C.VERIF, "corpus/basm/pipe.basm")],
+                           cwd=work, capture_output=True, text=True, timeout=300)
+        if not os.path.exists(os.path.join(work, "bm.json")):
+            raise C.Broken("basm does not assemble corpus/basm/pipe.basm: %s" % (p.stdout + p.stderr)[-300:])
+        open(os.path.join(work, "in.csv"), "w").write("0f1.5\n0f2.0\n0f7.25\n0f0.5\n")
+        try:
+            p = subprocess.run([os.path.join(work, "sft.test"), "-bondmachine-file", "bm.json", "-inputs-file", "in.csv", "-outputs-file", "in.csv"],
+                               cwd=work, capture_output=True, text=True, timeout=300)
+            out = p.stdout
+        except subprocess.TimeoutExpired as e:
+            out = (e.stdout or b"").decode() if isinstance(e.stdout, bytes) else (e.stdout or "")
+            out += "\nTIMEOUT"
+        rows = re.findall(r"VERIF_FITNESS workers=(-?\d+) evaluations=(\d+) before=(\d+) after=(\d+)", out)
+        res.coverage["tuning_tool_batches"] = len(rows)
+        for w, n, b, af in rows:
+            res.count_case({"call": "simfinetune.FitnessFunction", "workers": int(w), "n": int(n)}, nontrivial=True)
+            if int(af) > int(b):
+                viol.append(("%d goroutines left by %s evaluations of the fitness function of cmd/simfinetune with -workers %s"
+                             % (int(af) - int(b), n, w), {"call": "simfinetune", "workers": int(w), "evaluations": int(n), "machine": "corpus/basm/pipe.basm"}))
+        if len(rows) < 4:
+            viol.append(("the fitness function of cmd/simfinetune does not complete its batches (%d of 4 reported): %s" % (len(rows), out[-300:]),
+                         {"call": "simfinetune", "machine": "corpus/basm/pipe.basm"}))
+    finally:
+        shutil.rmtree(work, ignore_errors=True)
+    return viol
 
 
 def run(res, a):
@@ -83,10 +128,14 @@ def run(res, a):
                 growth -= d
         if growth > 0:
             viol.append(("%d more goroutines after %d %s calls" % (growth, q["n"], q["call"]), q))
+    if not a.replay:
+        viol += tuning_tool_part(res)
     cov = res.coverage
     cov["rule"] = ("batches of n in {1,10,60(,100,400)} calls of SinglePipelineSimulate and Fitness_default on pipelines of 1-5 processors, "
                    "sequential and from 4 concurrent callers, plus 10 assembler runs; goroutine count and goroutine profile grouped by "
-                   "function before/after each batch (after a warm-up call, GC and a settle delay); non-trivial = batches of >= 10 calls")
+                   "function before/after each batch (after a warm-up call, GC and a settle delay); non-trivial = batches of >= 10 calls; "
+                   "the fitness function of the tuning tool cmd/simfinetune (8 evaluations for each of -workers 4, 1, 0, -1) through the hook test "
+                   "cmd/simfinetune/verif_hook_test.go")
     cov["heap_trend"] = heap
     cov["samples"] = [{k: reqs[0][k] for k in ("call", "n", "conc", "nproc")}]
     cov["traces_validated_against_impl"] = len(reqs)
